@@ -34,6 +34,15 @@ def cidx(r, s):
     return (s - 1) * 13 + r - 2
 
 
+def unknown_field(exc):
+    """the interpreted code read a state field that the harness's pre-state does not describe (the implementation keeps
+    additional state): the inductive step cannot quantify over it - not a verdict, the from-the-constructor cases decide"""
+    return isinstance(exc, AttributeError) and 'has no attribute' in str(exc)
+
+
+NA = 'H1 not applicable'
+
+
 def ref_winner(cards, trump):
     """cards: four (rank, suit) z3 pairs in the order played; trump 1..5 (5 = NT). Index 0..3 of the winner."""
     has_trump = z3.Or([s == trump for _, s in cards])
@@ -287,6 +296,8 @@ def case_step(props, t, who='any'):
         try:
             eng.call_function(PlayingPhaseWithHands.play_card_by_player, [obj, card, SEnum(Player, seat)], {})
         except symx.RaiseEx as e:
+            if unknown_field(e.exc):
+                return dict(outcome=NA, checks=[], sample=str(e.exc))
             post = read_state(obj, st)
             add({'C05'}, 'a play is refused only out of turn or of a card the seat does not hold', z3.Not(ok))
             add({'C05'}, 'the refusal is a ValueError', isinstance(e.exc, ValueError))
@@ -599,12 +610,16 @@ def case_observer(props, t, mode, turn=None):
         try:
             eng.call_function(PlayingPhaseWithHands.play_card_by_player, [F, cardmod.sym_card(cr, cs_), SEnum(Player, seat)], {})
             f_ok = True
-        except symx.RaiseEx:
+        except symx.RaiseEx as e:
+            if unknown_field(e.exc):
+                return dict(outcome=NA, checks=[], sample=str(e.exc))
             f_ok = False
         try:
             eng.call_function(ObservedPlayingPhase.play_card_by_player, [O, cardmod.sym_card(cr, cs_), SEnum(Player, seat)], {})
             o_ok, o_exc = True, None
         except symx.RaiseEx as e:
+            if unknown_field(e.exc):
+                return dict(outcome=NA, checks=[], sample=str(e.exc))
             o_ok, o_exc = False, e.exc
         postO = read_observer(O)
         in_hand = z3.Or([z3.And(ci == i, preO['hand'].bits[i]) for i in range(52)])
@@ -726,7 +741,9 @@ def case_available_state(props, t, which):
             hand = _pick(seat, pre['hands'])
             try:
                 r = eng.call_function(PlayingPhaseWithHands.current_available_cards_in_hand, [F, SEnum(Player, seat)], {})
-            except symx.RaiseEx:
+            except symx.RaiseEx as e:
+                if unknown_field(e.exc):
+                    return dict(outcome=NA, checks=[], sample=str(e.exc))
                 return dict(outcome='raise', refine=cexf({}), checks=[(f'{p}: does not raise', False) for p in sorted(props)])
             refine = cexf({})
         elif which in ('own', 'dummy'):
@@ -738,7 +755,9 @@ def case_available_state(props, t, which):
             refine = cexf({'observer': obs})
             try:
                 r = eng.call_function(fn, [O], {})
-            except symx.RaiseEx:
+            except symx.RaiseEx as e:
+                if unknown_field(e.exc):
+                    return dict(outcome=NA, checks=[], sample=str(e.exc))
                 return dict(outcome='raise', refine=refine, checks=[(f'{p}: does not raise', False) for p in sorted(props)])
         else:
             hand = _pick(seat, pre['hands'])
@@ -775,3 +794,73 @@ def case_available_state(props, t, which):
                ('never empty while the hand is non-empty', z3.Implies(z3.Or(hand.bits), z3.Or(r.bits)))]
         return dict(outcome=f'{which} hand, {t} on table', refine=refine, checks=[(f'{p}: {l}', c) for l, c in chk for p in sorted(props)])
     return hx.explore_case(path)
+
+
+def case_available_sequence(props, obs_seat, n, declarer=1):
+    """from the REAL constructor of the single-seat observer: query the playable sets, play a symbolic card by the seat on
+    turn, query again ... (first trick, n <= 4 plays): every answer must be the follow-suit rule on the CURRENT hand - a
+    memo that survives a play would answer from an earlier state"""
+    from bridge_env import ObservedPlayingPhase, Player
+
+    def path(eng):
+        c, dom, v = sym_contract()
+        eng.assume(dom)
+        eng.assume(v['dcl'] == declarer)
+        c.attrs['declarer'] = Player(declarer)
+        dummy = (declarer + 1) % 4 + 1
+        hs = {p: cardmod.fresh_cardset(f'hand{p}') for p in range(1, 5)}
+        for i in range(52):
+            bits = [hs[p].bits[i] for p in range(1, 5)]
+            eng.assume(z3.And([z3.Not(z3.And(bits[a], bits[b])) for a in range(4) for b in range(a + 1, 4)]))
+        for p in range(1, 5):
+            eng.assume(z3.And(hs[p].axioms(), hs[p].n == 13))
+        ref = {p: list(hs[p].bits) for p in range(1, 5)}
+        obs = eng.construct(ObservedPlayingPhase, [c, Player(obs_seat), hs[obs_seat].copy()], {})
+        plays = [(z3.Int(f'p{k}_rank'), z3.Int(f'p{k}_suit')) for k in range(n)]
+        chk = []
+
+        def cex(m):
+            ev = lambda z: hx.mval(m, z)
+            return {'kind': 'available_sequence', 'props': sorted(props), 'observer': obs_seat,
+                    'contract': {'bid': ev(v['b']), 'x': ev(v['x']), 'xx': ev(v['xx']), 'vul': ev(v['vul']), 'declarer': declarer},
+                    'deal': {str(p): [i for i in range(52) if ev(hs[p].bits[i]) is True] for p in range(1, 5)},
+                    'cards': [(ev(s) - 1) * 13 + ev(r) - 2 for r, s in plays]}
+
+        def query(when, led):
+            for which, seat, fn in (('own', obs_seat, ObservedPlayingPhase.current_available_cards_in_hand),
+                                    ('dummy', dummy, ObservedPlayingPhase.current_available_cards_in_dummy_hand)):
+                if which == 'dummy' and (obs_seat == dummy or obs.attrs.get('_dummy_hand') is None):
+                    continue
+                try:
+                    r = eng.call_function(fn, [obs], {})
+                except symx.RaiseEx as e:
+                    chk.append((f'{when}: playable set of the {which} hand can be queried ({e.exc!r})', False))
+                    continue
+                if not isinstance(r, CardSet):
+                    chk.append((f'{when}: playable set of the {which} hand is a set of cards', False))
+                    continue
+                want = ref_available(ref[seat], led)
+                chk.append((f'{when}: playable set of the {which} hand = follow-suit rule on the current hand',
+                            z3.And([r.bits[i] == want[i] for i in range(52)])))
+        led = z3.IntVal(0)
+        query('before the opening lead', led)
+        for k, (r, s) in enumerate(plays):
+            turn = (declarer + k) % 4 + 1
+            eng.assume(z3.And(2 <= r, r <= 14, 1 <= s, s <= 4))
+            ci = cidx(r, s)
+            eng.assume(z3.Or([z3.And(ci == i, ref[turn][i]) for i in range(52)]))       # the seat on turn plays a card it holds
+            try:
+                eng.call_function(ObservedPlayingPhase.play_card_by_player, [obs, cardmod.sym_card(r, s), Player(turn)], {})
+            except symx.RaiseEx as e:
+                chk.append((f'play {k}: a card held by the seat on turn is accepted ({e.exc!r})', False))
+                break
+            ref[turn] = [z3.And(ref[turn][i], ci != i) for i in range(52)]
+            if k == 0:
+                led = s
+                if obs_seat != dummy:
+                    dh = CardSet(list(ref[dummy]), z3.IntVal(13))
+                    eng.call_function(ObservedPlayingPhase.set_dummy_hand, [obs, dh], {})
+            if k < 3:
+                query(f'after play {k}', led)
+        return dict(outcome='query-play-query sequence', cex=cex, checks=[(f'{p}: {l}', c_) for l, c_ in chk for p in sorted(props)])
+    return hx.explore_case(path, dict(max_paths=20000))
